@@ -379,8 +379,8 @@ def run(ck):
     exh = small_trees()
     if not thorough:
         exh = [t for k, t in enumerate(exh) if k < 60 or k % 3 == ck.seed % 3]
-    trees = FIXED_TREES + exh + [rand_tree(rng, rng.randint(0, 4)) for _ in range(6000 if thorough else 1500)]
-    trees += [rand_tree(rng, rng.randint(5, 6)) for _ in range(300 if thorough else 60)]
+    trees = FIXED_TREES + exh + [rand_tree(rng, rng.randint(0, 4)) for _ in range(30000 if thorough else 1500)]
+    trees += [rand_tree(rng, rng.randint(5, 6)) for _ in range(2000 if thorough else 60)]
     n_off_gen = sum(1 for t in trees if not tree_in_domain(t))
     trees = [t for t in trees if tree_in_domain(t)] + OFF_DOMAIN_TREES
     jl = ["%s\t%s" % (enc_str(tree_text(t)), " ".join(tree_wire(t, []))) for t in trees]
